@@ -273,7 +273,8 @@ fn shape_of(fields: &syn::Fields, params: &[String]) -> ShapeD {
             return None;
         }
         Some(FieldD {
-            name: f.ident.as_ref().map(|i| i.to_string()),
+            // serde (and rustc) name a raw identifier `r#type` by its unraw spelling
+            name: f.ident.as_ref().map(|i| syn::ext::IdentExt::unraw(i).to_string()),
             ty: ty_of(&f.ty, params),
             hook: a.visit_with.last().cloned(),
             visit_bad: a.visit_bad.clone(),
@@ -352,7 +353,7 @@ fn scan_items(items: &[syn::Item], file: &str, sc: &mut Scan) {
                         continue;
                     }
                     vs.push(VariantD {
-                        name: v.ident.to_string(),
+                        name: syn::ext::IdentExt::unraw(&v.ident).to_string(),
                         shape: shape_of(&v.fields, &params),
                         serde: va.serde.clone(),
                         visit_attr: va.visit_with.iter().cloned().chain(va.visit_bad.iter().cloned()).collect(),
@@ -576,7 +577,19 @@ pub fn run(repo: &Path, out: &Path) -> Result<(), String> {
         name_id.insert(s.to_string(), i);
         i
     };
-    for inst in &insts {
+    // the definitions with the most names are interned first, so that their variant / field names get
+    // increasing ids (the Lean side condition has a linear fast path for strictly increasing id lists)
+    let mut order: Vec<usize> = (0..insts.len()).collect();
+    order.sort_by_key(|&i| std::cmp::Reverse(insts[i].variants.iter().map(|v| 1 + v.shape.fields.len()).sum::<usize>()));
+    for &i in &order {
+        for v in &insts[i].variants {
+            if sc.defs[insts[i].def].is_enum {
+                intern(&v.name);
+            }
+        }
+    }
+    for &i in &order {
+        let inst = &insts[i];
         intern(&sc.defs[inst.def].name);
         for v in &inst.variants {
             intern(&v.name);
